@@ -6,13 +6,14 @@ with it and passes without it — then runs my checks against it (scratch copy),
 import sys, os, re, subprocess, json, shutil, glob
 ID, n = sys.argv[1], sys.argv[2]
 checks = sys.argv[3:] or [ID]
-src = f"/tmp/seed/{ID}/OUT/{n}"
+ROUND = os.environ.get("ROUND", "1")
+src = f"/tmp/seed/{ID}/OUT/{n}" if ROUND == "1" else f"/tmp/seed/{ID}.out/{n}"
 env = dict(os.environ, GOFLAGS="-mod=mod", GOPROXY="off", GOSUMDB="off", GOTOOLCHAIN="local")
 def sh(cmd, cwd=None, timeout=1200):
     p = subprocess.run(cmd, shell=True, cwd=cwd, env=env, capture_output=True, text=True, timeout=timeout)
     return p.returncode, (p.stdout + p.stderr)
 demos = [f for f in glob.glob(src + "/*.go")] + glob.glob(src + "/demo/*.go")
-meta = {"property": ID, "source": f"independent sub-agent given only the property text (seed {ID}/{n})"}
+meta = {"property": ID, "source": f"independent sub-agent given only the property text (round {ROUND}, seed {ID}/{n})"}
 def place(wt):
     """copy the demo into the worktree; return (pkgdir, tags, is_test)"""
     d = demos[0]
@@ -35,7 +36,7 @@ def place(wt):
     return dest, tags, pkg != "main"
 res = {}
 for variant in ("with", "without"):
-    wt = f"/tmp/scratch/eval-{ID}-{n}-{variant}"
+    wt = f"/tmp/scratch/eval{ROUND}-{ID}-{n}-{variant}"
     shutil.rmtree(wt, ignore_errors=True)
     sh(f"git -C /repo worktree prune; git -C /repo worktree add -q --detach {wt} HEAD")
     if variant == "with":
@@ -66,11 +67,11 @@ meta["confirmed"] = confirmed
 meta["confirmation"] = res
 # run my checks in a scratch copy
 race = "0" if any(c in ("C09", "C10", "C11") for c in checks) else "1"
-rc, out = sh(f"BASELINE=0 VERIF_SKIP_RACE_BUILD={race} /verif/tools/scratchrun.sh seed-{ID}-{n} {src}/patch.diff {' '.join(checks)}", timeout=7200)
+rc, out = sh(f"BASELINE=0 VERIF_SKIP_RACE_BUILD={race} /verif/tools/scratchrun.sh seed{ROUND}-{ID}-{n} {src}/patch.diff {' '.join(checks)}", timeout=7200)
 print(out.strip())
 meta["checks_run"] = out.strip().splitlines()
 meta["caught_by"] = [l.split()[0].split("=")[1] for l in out.splitlines() if l.startswith("check=") and " rc=1 " in l]
-dst = f"/verif/seeded/{ID}-{n}"
+dst = f"/verif/seeded/{ID}-{n}" if ROUND == "1" else f"/verif/seeded/r{ROUND}-{ID}-{n}"
 os.makedirs(dst, exist_ok=True)
 shutil.copy(src + "/patch.diff", dst + "/patch.diff")
 for f in demos:
